@@ -449,6 +449,9 @@ func (r *runnableStep) Start(_ map[string]any, runID string, stageChangeHandler 
 		stageChangeHandler: stageChangeHandler,
 		logger:             r.logger,
 	}
+	// Register the goroutine before it starts: Close() waits on the wait group and may be
+	// called before the goroutine got to run.
+	rs.wg.Add(1)
 	go rs.run()
 	return rs, nil
 }
@@ -586,8 +589,8 @@ func (r *runningStep) ForceClose() error {
 	return r.Close()
 }
 
+// Note: Caller must add 1 to the waitgroup before calling.
 func (r *runningStep) run() {
-	r.wg.Add(1)
 	defer func() {
 		r.logger.Debugf("foreach run function done")
 		r.wg.Done()
